@@ -2,9 +2,9 @@
 
 package internal
 
-// CopyHook, when set, is called by Copy after the destination has been
-// created ("created") and after the data has been written ("copied"). A
-// non-nil result makes Copy fail at that point. Verification builds only.
+// CopyHook, when set, is called by Copy after the data has been written
+// ("copied"). A non-nil result makes Copy fail at that point, like a write
+// error would. Verification builds only.
 var CopyHook func(stage, source, dest string) error
 
 func copyHook(stage, source, dest string) error {
